@@ -110,3 +110,268 @@ c.ensures("result == (len(stream.buffer) >= 3 and stream.buffer[:3] == be(3, tag
 c = contract(P + "Base.is_type_next").props('C01')
 c.args(kmip_type=TYPES, stream=STREAM)
 c.ensures("result == (len(stream.buffer) >= 4 and stream.buffer[3] == kmip_type.value)")
+
+# ---------------------------------------------------------------- the primitives (L3)
+KV = ('enum', 'kmip.core.enums.KMIPVersion')
+INT32 = "(-2147483648 <= self.value and self.value <= 2147483647)"
+
+# ---- Integer
+INTEGER = ('ctor', P + 'Integer', {'value': ('opt', 'int'), 'tag': TAGS})
+
+c = contract(P + "Integer.__init__").props('C01')
+c.args(self=('obj', P + 'Integer', {}), value=('opt', 'int'), tag=TAGS)
+c.raises('ValueError', when="value is not None and (value > 2147483647 or value < -2147483648)")
+c.ensures("self.value == (0 if value is None else value)", name="value")
+c.ensures("self.length == 4 and self.padding_length == 4 and self.pack_string == '!i'", name="lengths")
+c.ensures("self.tag == tag and self.type == enums.Types.INTEGER", name="tag-type")
+c.modifies("self.*")
+
+c = contract(P + "Integer.validate").props('C01')
+c.args(self=('obj', P + 'Integer', {'value': ('opt', 'int')}))
+c.raises('ValueError', when="self.value is not None and (self.value > 2147483647 or self.value < -2147483648)")
+
+c = contract(P + "Integer.write_value").props('C01', 'C02')
+c.args(self=INTEGER, ostream=STREAM, kmip_version=KV)
+c.ensures("ostream.buffer == old(ostream.buffer) + be(4, twos(32, self.value)) + zeros(4)")
+c.modifies("ostream.buffer")
+
+c = contract(P + "Integer.write").props('C01', 'C02')
+c.args(self=INTEGER, ostream=STREAM, kmip_version=KV)
+c.ensures("ostream.buffer == old(ostream.buffer) + enc_integer(self.tag, self.value)", name="spec-encoding")
+c.modifies("ostream.buffer")
+
+c = contract(P + "Integer.read_value").props('C01', 'C02')
+c.args(self=('obj', P + 'Integer', {'value': 'int', 'tag': TAGS, 'type': ('const', 'T:INTEGER'),
+                                   'length': 'nat', 'padding_length': ('const', 4),
+                                   'pack_string': ('const', '!i')}), istream=STREAM)
+c.raises(DECODE_ERRORS,
+         when="not (self.length == 4 and len(istream.buffer) >= 8 and istream.buffer[4:8] == zeros(4))")
+c.ensures("old(istream.buffer)[:8] == be(4, twos(32, self.value)) + zeros(4)", name="value-decoded")
+c.ensures("istream.buffer == old(istream.buffer)[8:]", name="consumes-8")
+c.ensures(INT32, name="range")
+c.modifies("istream.buffer", "self.value")
+
+c = contract(P + "Integer.read").props('C01', 'C02')
+c.args(self=INTEGER, istream=STREAM, kmip_version=KV)
+c.raises(DECODE_ERRORS,
+         when="not (len(istream.buffer) >= 16 and istream.buffer[:8] == hdr(self.tag.value, 2, 4) "
+              "and istream.buffer[12:16] == zeros(4))")
+c.ensures("old(istream.buffer)[:16] == enc_integer(self.tag, self.value)", name="consumed-is-encoding")
+c.ensures("istream.buffer == old(istream.buffer)[16:]", name="consumes-16")
+c.ensures(INT32, name="range")
+c.modifies("istream.buffer", "self.value", "self.length")
+
+c = contract(P + "Integer.__eq__").props('C01')
+c.args(self=INTEGER, other=INTEGER)
+c.ensures("result == (self.value == other.value)")
+
+# ---- LongInteger / DateTime
+LONG = ('ctor', P + 'LongInteger', {'value': 'int', 'tag': TAGS})
+INT64 = "(-9223372036854775808 <= self.value and self.value <= 9223372036854775807)"
+
+c = contract(P + "LongInteger.__init__").props('C01')
+c.args(self=('obj', P + 'LongInteger', {}), value='int', tag=TAGS)
+c.raises('ValueError', when="value > 9223372036854775807 or value < -9223372036854775808")
+c.ensures("self.value == value and self.length == 8", name="fields")
+c.ensures("self.tag == tag and self.type == enums.Types.LONG_INTEGER", name="tag-type")
+c.modifies("self.*")
+
+c = contract(P + "LongInteger.write").props('C01', 'C02')
+c.args(self=LONG, ostream=STREAM, kmip_version=KV)
+c.ensures("ostream.buffer == old(ostream.buffer) + enc_long_integer(self.tag, self.value)", name="spec-encoding")
+c.modifies("ostream.buffer")
+
+c = contract(P + "LongInteger.read").props('C01', 'C02')
+c.args(self=LONG, istream=STREAM, kmip_version=KV)
+c.raises(DECODE_ERRORS + ('exceptions.InvalidPrimitiveLength',),
+         when="not (len(istream.buffer) >= 16 and istream.buffer[:8] == hdr(self.tag.value, 3, 8))")
+c.ensures("old(istream.buffer)[:16] == enc_long_integer(self.tag, self.value)", name="consumed-is-encoding")
+c.ensures("istream.buffer == old(istream.buffer)[16:]", name="consumes-16")
+c.ensures(INT64, name="range")
+c.modifies("istream.buffer", "self.value", "self.length")
+
+c = contract(P + "LongInteger.__eq__").props('C01')
+c.args(self=LONG, other=LONG)
+c.ensures("result == (self.value == other.value)")
+
+DATE = ('ctor', P + 'DateTime', {'value': ('opt', 'int'), 'tag': TAGS})
+c = contract(P + "DateTime.__init__").props('C01')
+c.args(self=('obj', P + 'DateTime', {}), value='int', tag=TAGS)
+c.raises('ValueError', when="value > 9223372036854775807 or value < -9223372036854775808")
+c.ensures("self.value == value and self.length == 8", name="fields")
+c.ensures("self.tag == tag and self.type == enums.Types.DATE_TIME", name="tag-type")
+c.modifies("self.*")
+
+# ---- Enumeration
+ENUMN = ('obj', P + 'Enumeration', {'value': ('enum', 'kmip.core.enums.CryptographicAlgorithm'),
+                                    'enum': ('const', 'E:CryptographicAlgorithm'), 'tag': TAGS,
+                                    'type': ('const', 'T:ENUMERATION'), 'length': ('const', 4)})
+
+c = contract(P + "Enumeration.write").props('C01', 'C02')
+c.args(self=ENUMN, ostream=STREAM, kmip_version=KV)
+c.ensures("ostream.buffer == old(ostream.buffer) + enc_enumeration(self.tag, self.value.value)", name="spec-encoding")
+c.modifies("ostream.buffer")
+
+c = contract(P + "Enumeration.read").props('C01', 'C02')
+c.args(self=ENUMN, istream=STREAM, kmip_version=KV)
+c.raises(DECODE_ERRORS + ('exceptions.InvalidPrimitiveLength', 'exceptions.InvalidPaddingBytes'),
+         when="not (len(istream.buffer) >= 16 and istream.buffer[:8] == hdr(self.tag.value, 5, 4) "
+              "and is_member(self.enum, be_int(istream.buffer[8:12])) and istream.buffer[12:16] == zeros(4))")
+c.ensures("old(istream.buffer)[:16] == enc_enumeration(self.tag, self.value.value)", name="consumed-is-encoding")
+c.ensures("istream.buffer == old(istream.buffer)[16:]", name="consumes-16")
+c.modifies("istream.buffer", "self.value", "self.length")
+
+# ---- Boolean
+BOOL = ('ctor', P + 'Boolean', {'value': 'bool', 'tag': TAGS})
+
+c = contract(P + "Boolean.write").props('C01', 'C02')
+c.args(self=BOOL, ostream=STREAM, kmip_version=KV)
+c.ensures("ostream.buffer == old(ostream.buffer) + enc_boolean(self.tag, self.value)", name="spec-encoding")
+c.modifies("ostream.buffer")
+
+c = contract(P + "Boolean.read").props('C01', 'C02')
+c.args(self=BOOL, istream=STREAM, kmip_version=KV)
+c.raises(DECODE_ERRORS,
+         when="not (len(istream.buffer) >= 16 and istream.buffer[:3] == be(3, self.tag.value) "
+              "and istream.buffer[3] == 6 and be_int(istream.buffer[8:16]) <= 1)")
+c.ensures("old(istream.buffer)[:16] == hdr(self.tag.value, 6, self.length) + be(8, ite(self.value, 1, 0))",
+          name="consumed-is-encoding-modulo-length")
+c.ensures("istream.buffer == old(istream.buffer)[16:]", name="consumes-16")
+c.ensures("type_is(self.value, bool)", name="bool")
+c.modifies("istream.buffer", "self.value", "self.length")
+
+# ---- Interval
+INTERVAL = ('ctor', P + 'Interval', {'value': 'int', 'tag': TAGS})
+
+c = contract(P + "Interval.write").props('C01', 'C02')
+c.args(self=INTERVAL, ostream=STREAM, kmip_version=KV)
+c.ensures("ostream.buffer == old(ostream.buffer) + enc_interval(self.tag, self.value)", name="spec-encoding")
+c.modifies("ostream.buffer")
+
+c = contract(P + "Interval.read").props('C01', 'C02')
+c.args(self=INTERVAL, istream=STREAM, kmip_version=KV)
+c.raises(DECODE_ERRORS + ('exceptions.InvalidPrimitiveLength', 'exceptions.InvalidPaddingBytes'),
+         when="not (len(istream.buffer) >= 16 and istream.buffer[:8] == hdr(self.tag.value, 10, 4) "
+              "and istream.buffer[12:16] == zeros(4))")
+c.ensures("old(istream.buffer)[:16] == enc_interval(self.tag, self.value)", name="consumed-is-encoding")
+c.ensures("istream.buffer == old(istream.buffer)[16:]", name="consumes-16")
+c.ensures("0 <= self.value and self.value < 4294967296", name="range")
+c.modifies("istream.buffer", "self.value", "self.length")
+
+# ---------------------------------------------------------------- variable-length primitives
+BYTESTR = ('ctor', P + 'ByteString', {'value': ('opt', 'bytes'), 'tag': TAGS})
+
+c = contract(P + "ByteString.__init__").props('C01')
+c.args(self=('obj', P + 'ByteString', {}), value=('opt', 'bytes'), tag=TAGS)
+c.ensures("self.value == (b'' if value is None else value)", name="value")
+c.ensures("self.length == len(self.value) and self.padding_length == pad_len(len(self.value))", name="lengths")
+c.ensures("self.tag == tag and self.type == enums.Types.BYTE_STRING", name="tag-type")
+c.modifies("self.*")
+
+c = contract(P + "ByteString.write_value").props('C01', 'C02')
+c.args(self=BYTESTR, ostream=STREAM, kmip_version=KV)
+c.loop(0, "ostream.buffer == old(ostream.buffer) + done", modifies=["ostream.buffer"])
+c.ensures("ostream.buffer == old(ostream.buffer) + self.value + zeros(pad_len(len(self.value)))")
+c.modifies("ostream.buffer")
+
+c = contract(P + "ByteString.write").props('C01', 'C02')
+c.args(self=BYTESTR, ostream=STREAM, kmip_version=KV)
+c.raises('exceptions.WriteOverflowError', when="len(self.value) >= 4294967296")
+c.ensures("ostream.buffer == old(ostream.buffer) + enc_byte_string(self.tag, self.value)", name="spec-encoding")
+c.modifies("ostream.buffer")
+
+BYTESTR_RAW = ('obj', P + 'ByteString', {'value': 'bytes', 'tag': TAGS, 'type': ('const', 'T:BYTE_STRING'),
+                                          'length': 'nat', 'padding_length': 'nat'})
+c = contract(P + "ByteString.read_value").props('C01', 'C02')
+c.args(self=BYTESTR_RAW, istream=STREAM, kmip_version=KV)
+c.loop(0, ["old(istream.buffer) == data + istream.buffer", "len(data) == _i"],
+       modifies=["istream.buffer"], havoc={'data': ('mutbytes',)})
+c.raises(('IndexError', 'struct.error', 'exceptions.ReadValueError'),
+         when="not (len(istream.buffer) >= self.length + pad_len(self.length) and "
+              "istream.buffer[self.length:self.length + pad_len(self.length)] == zeros(pad_len(self.length)))")
+c.ensures("old(istream.buffer) == self.value + zeros(pad_len(len(self.value))) + istream.buffer",
+          name="consumed-is-padded-value")
+c.ensures("len(self.value) == self.length", name="length")
+c.modifies("istream.buffer", "self.value", "self.padding_length")
+
+c = contract(P + "ByteString.read").props('C01', 'C02')
+c.args(self=BYTESTR, istream=STREAM, kmip_version=KV)
+c.raises(DECODE_ERRORS + ('IndexError',),
+         when="not (len(istream.buffer) >= 8 and istream.buffer[:4] == be(3, self.tag.value) + be(1, 8) and "
+              "len(istream.buffer) >= 8 + padded(be_int(istream.buffer[4:8])) and "
+              "istream.buffer[8 + be_int(istream.buffer[4:8]): 8 + padded(be_int(istream.buffer[4:8]))] "
+              "== zeros(pad_len(be_int(istream.buffer[4:8]))))")
+c.ensures("old(istream.buffer) == enc_byte_string(self.tag, self.value) + istream.buffer",
+          name="consumed-is-encoding")
+c.modifies("istream.buffer", "self.value", "self.length", "self.padding_length")
+
+# ---- TextString.  KMIP text strings are UTF-8; this implementation packs one
+# byte per *character* ('!c' of char.encode()), so only code points < 128 are
+# encodable.  The contracts below are stated for such text ("ascii"); that the
+# constructor accepts more than `write` can encode is obligation
+# C01/TextString.encodable (finding F6).
+TEXT = ('ctor', P + 'TextString', {'value': ('opt', 'ascii'), 'tag': TAGS})
+
+c = contract(P + "TextString.__init__").props('C01')
+c.args(self=('obj', P + 'TextString', {}), value=('opt', 'str'), tag=TAGS)
+c.ensures("self.value == ('' if value is None else value)", name="value")
+c.ensures("self.length == len(self.value) and self.padding_length == pad_len(len(self.value))", name="lengths")
+c.ensures("self.tag == tag and self.type == enums.Types.TEXT_STRING", name="tag-type")
+c.modifies("self.*")
+
+c = contract(P + "TextString.write_value").props('C01', 'C02')
+c.args(self=TEXT, ostream=STREAM, kmip_version=KV)
+c.loop(0, "ostream.buffer == old(ostream.buffer) + text_bytes(done)", modifies=["ostream.buffer"])
+c.ensures("ostream.buffer == old(ostream.buffer) + text_bytes(self.value) + zeros(pad_len(len(self.value)))")
+c.modifies("ostream.buffer")
+
+c = contract(P + "TextString.write").props('C01', 'C02')
+c.args(self=TEXT, ostream=STREAM, kmip_version=KV)
+c.raises('exceptions.WriteOverflowError', when="len(self.value) >= 4294967296")
+c.ensures("ostream.buffer == old(ostream.buffer) + enc_text_string(self.tag, self.value)", name="spec-encoding")
+c.modifies("ostream.buffer")
+
+TEXT_RAW = ('obj', P + 'TextString', {'value': 'str', 'tag': TAGS, 'type': ('const', 'T:TEXT_STRING'),
+                                      'length': 'nat', 'padding_length': 'nat'})
+TEXT_DECODE_ERRORS = DECODE_ERRORS + ('UnicodeDecodeError',)
+
+c = contract(P + "TextString.read_value").props('C01', 'C02')
+c.args(self=TEXT_RAW, istream=STREAM, kmip_version=KV)
+c.loop(0, ["old(istream.buffer) == text_bytes(self.value) + istream.buffer", "len(self.value) == _i",
+           "forall_elems(self.value, 0, 127)"],
+       modifies=["istream.buffer", "self.value"], havoc={'self.value': 'ascii'})
+c.raises(TEXT_DECODE_ERRORS)
+c.ensures("old(istream.buffer) == text_bytes(self.value) + zeros(pad_len(len(self.value))) + istream.buffer",
+          name="consumed-is-padded-value")
+c.ensures("len(self.value) == self.length and forall_elems(self.value, 0, 127)", name="length-ascii")
+c.modifies("istream.buffer", "self.value", "self.padding_length")
+
+c = contract(P + "TextString.read").props('C01', 'C02')
+c.args(self=TEXT, istream=STREAM, kmip_version=KV)
+c.raises(TEXT_DECODE_ERRORS)
+c.ensures("old(istream.buffer) == enc_text_string(self.tag, self.value) + istream.buffer",
+          name="consumed-is-encoding")
+c.ensures("forall_elems(self.value, 0, 127)", name="ascii")
+c.modifies("istream.buffer", "self.value", "self.length", "self.padding_length")
+
+# completeness ("accepts every encoding"): ghost witnesses v0, rest0
+c = contract(P + "TextString.read_value", variant="accepts").props('C01')
+c.args(self=TEXT_RAW, istream=STREAM, kmip_version=KV)
+c.let('v0', 'ascii').let('rest0', 'bytes')
+c.requires("self.length == len(v0)")
+c.requires("istream.buffer == text_bytes(v0) + zeros(pad_len(len(v0))) + rest0")
+c.loop(0, ["v0 == self.value + rem", "istream.buffer == text_bytes(rem) + zeros(pad_len(len(v0))) + rest0",
+           "len(self.value) == _i"],
+       modifies=["istream.buffer", "self.value"], havoc={'self.value': 'ascii'},
+       ghost_init={'rem': 'v0'}, ghost_step={'rem': 'rem[1:]'})
+c.ensures("self.value == v0 and istream.buffer == rest0")
+c.modifies("istream.buffer", "self.value", "self.padding_length")
+
+c = contract(P + "TextString.read", variant="accepts").props('C01')
+c.args(self=TEXT, istream=STREAM, kmip_version=KV)
+c.let('v0', 'ascii').let('rest0', 'bytes')
+c.requires("len(v0) < 4294967296")
+c.requires("istream.buffer == enc_text_string(self.tag, v0) + rest0")
+c.use_variant('accepts')
+c.ensures("self.value == v0 and istream.buffer == rest0")
+c.modifies("istream.buffer", "self.value", "self.length", "self.padding_length")
